@@ -2,6 +2,7 @@
 //! observation (a list of fields, each a list of numbers) per case.  See DESIGN.md section 4.2.
 mod util;
 mod hcobs_fam;
+mod hmem;
 mod iovw;
 mod nfs;
 mod readn;
@@ -44,6 +45,8 @@ fn main() {
             "chunk" => stream::run_chunk(line),
             "reader" => stream::run_reader(line),
             "hcobs" => hcobs_fam::run(line),
+            "hmem" => hmem::run_hmem(line),
+            "smem" => hmem::run_smem(line),
             "readn" => readn::run(line),
             "hint" => readn::run_hint(line),
             "sdq" => sdq::run(line),
